@@ -143,6 +143,9 @@ def comp_desc(draw, cid, platforms):
                                                         {"repeatInterval": "%(n)s"}]))
     if draw(st.booleans()):
         c["resourceManager"] = {"config": draw(st.sampled_from([{}, {"walltime": "%(n)s"}, {"backend": "local"}]))}
+    if draw(st.integers(0, 5)) == 0:
+        c.setdefault("resourceManager", {})["kubernetes"] = {"podSpec": draw(st.sampled_from([
+            {"tolerations": [{"key": "k-%s" % cid[1]}]}, {"nodeSelector": {"pool": "own-%(g)s"}}]))}
     if draw(st.integers(0, 3)) == 0:
         c["references"] = ["data/f%(n)s.txt:ref"]
     others = [p for p in platforms if p != "default"]
@@ -165,7 +168,10 @@ def blueprint_layer(draw):
     return draw(st.sampled_from([
         {}, {}, {"resourceRequest": {"numberThreads": "%(n)s"}}, {"command": {"expandArguments": "none"}},
         {"workflowAttributes": {"maxRestarts": 2}}, {"resourceManager": {"config": {"walltime": "%(n)s"}}},
-        {"command": {"arguments": "bp %(g)s"}}]))
+        {"command": {"arguments": "bp %(g)s"}},
+        # a free-form dictionary option that the built-in defaults leave at None
+        {"resourceManager": {"kubernetes": {"podSpec": {"schedulerName": "sched-%(g)s", "nodeSelector": {"pool": "bp"}}}}},
+        {"resourceManager": {"kubernetes": {"podSpec": {"nodeSelector": {"pool": "%(n)s"}}}}}]))
 
 
 @st.composite
@@ -334,6 +340,29 @@ def canon(o) -> str:
     return json.dumps(_canon(o), sort_keys=True, default=repr)
 
 
+def _without_empty(o):
+    """Copy of a JSON-like value without mappings/lists that are (recursively) empty."""
+    if isinstance(o, dict):
+        out = {}
+        for k, v in o.items():
+            w = _without_empty(v)
+            if isinstance(w, (dict, list)) and not w:
+                continue
+            out[k] = w
+        return out
+    if isinstance(o, list):
+        return [_without_empty(x) for x in o]
+    return o
+
+
+def _first_difference(a, b, path=""):
+    if isinstance(a, dict) and isinstance(b, dict):
+        for k in sorted(set(a) | set(b), key=str):
+            if a.get(k) != b.get(k):
+                return _first_difference(a.get(k), b.get(k), path + "/" + str(k))
+    return "%s: %s -> %s" % (path or "/", json.dumps(a)[:200], json.dumps(b)[:200])
+
+
 def scribble(o):
     """Change every container reachable from `o` in place."""
     if isinstance(o, dict):
@@ -380,6 +409,7 @@ class History:
         self.live = live
         self.ever = sorted({(d["stage"], d["name"]) for d in spec["comps"]})
         self._fresh_key = None
+        self._stripped_key = None
         self._fresh = None
         self._fresh_answers = {}
         self.prev_full = None          # answers of the from-scratch object after the previous step
@@ -402,6 +432,7 @@ class History:
         key = canon(raw)
         if key != self._fresh_key:
             self._fresh_key = key
+            self._stripped_key = canon(_without_empty(raw))
             self._fresh = self.F.FlowIRConcrete(raw, self.active, None)
             self._fresh_answers = {}
 
@@ -417,7 +448,14 @@ class History:
                                 step, json.dumps(op)))
 
     def description_untouched(self, step, op):
-        # queries only: whatever they normalised in the description must not change any answer -> rebuild and go on
+        """Queries only. A query may normalise the description by adding empty scopes (e.g. an empty `global` for a
+        platform that a stage-level setter created); anything else it changes in raw() is a corruption of the
+        description (e.g. a stored blueprint that received the values of the component just resolved)."""
+        now = canon(_without_empty(self.live.raw()))
+        if self._fresh_key is not None and now != self._stripped_key:
+            raise Violation("query-changed-description",
+                            "step %d (%s): raw() differs after queries only (empty containers ignored): %s" % (
+                                step, json.dumps(op), _first_difference(json.loads(self._stripped_key), json.loads(now))))
         self.refresh()
 
     def fresh_ask(self, cid, platform, flavour):
